@@ -158,7 +158,7 @@ def _on_alarm(signum, frame):
     raise _Alarm()
 
 
-def guarded(fn, seconds=20):
+def guarded(fn, seconds=8):
     """run fn() under a wall-clock alarm; returns ('ok', value) | ('err', name) | ('timeout', None)"""
     old = signal.signal(signal.SIGALRM, _on_alarm)
     signal.alarm(seconds)
@@ -316,6 +316,28 @@ def run_impl(line, extra=None):
             return show_acc(acc) + " " + enc_lmap(lm) + " %d,%d " % (int(f), int(l)) + show_nats(sc)
         return render(*guarded(lambda: SW.remove_nasty_arc(dec_acc(t[1]), dec_lmap(t[2]), has_insertion=b(t[3]),
                                                            has_deletion=b(t[4]))), fmt)
+    if op == "cap":
+        from fractions import Fraction
+        acc = dec_acc(t[1])
+        vecs = [[Fraction(x) for x in v.split(",")] for v in t[4].split(";")]
+        repeats = len(vecs)
+        seed = int(t[5])
+        if repeats > 1:
+            np.random.seed(seed)
+            drawn = [abs(np.random.random(size=(len(acc),))) for _ in range(repeats)]
+            if [[Fraction(float(x)) for x in d] for d in drawn] != vecs:
+                raise ValueError("cap line: start vectors do not match the seed")
+            np.random.seed(seed)
+
+        def call():
+            return GZ.approximate_capacity(acc, tolerance_level=-int(t[2]), repeats=repeats,
+                                           maximum_iteration=int(t[3]), process=True)
+
+        def fmt(r):
+            cap, rec = r
+            recs = [rec] if repeats == 1 else rec
+            return repr(float(cap)) + " " + ";".join(",".join(repr(float(x)) for x in rr) for rr in recs)
+        return render(*guarded(call, 120), fmt)
     if op == "flt":
         gcf = (extra or {}).get("gc")
         st, flt = guarded(lambda: mk_filter(int(t[1]), t[2], t[3], gcf))
